@@ -35,19 +35,13 @@ class Mesh3D(Mesh):
     def boundary_edges(self) -> ndarray:
         """Return an array of boundary edge indices."""
         facets = self.boundary_facets()
-        boundary_edges = np.sort(np.hstack(
-            tuple([np.vstack((self.facets[itr, facets],
-                              self.facets[(itr + 1) % self.facets.shape[0],
-                              facets]))
-                   for itr in range(self.facets.shape[0])])).T, axis=1)
         edge_candidates = np.unique(self.t2e[:, self.f2t[0, facets]])
-        A = self.edges[:, edge_candidates].T
-        B = boundary_edges
-        dims = A.max(0) + 1
-        ix = np.where(np.isin(
-            np.ravel_multi_index(A.T, dims),  # type: ignore
-            np.ravel_multi_index(B.T, dims),  # type: ignore
-        ))[0]
+        # an edge is on the boundary iff both of its end points belong to
+        # one and the same boundary facet
+        p2f = self.p2f.tocsr()[facets].tocsc()
+        edges = self.edges[:, edge_candidates]
+        common = p2f[:, edges[0]].multiply(p2f[:, edges[1]]).sum(axis=0)
+        ix = np.nonzero(np.asarray(common).flatten())[0]
         return edge_candidates[ix]
 
     def interior_edges(self) -> ndarray:
